@@ -5,7 +5,7 @@ import enum
 import sys
 
 from vlib import world
-from vlib.world import World, FakeFrame
+from vlib.world import World, FakeFrame, plugins
 from vlib import reader
 
 PROPERTY = "C06"
@@ -172,6 +172,10 @@ def offending(kind, exc_kind=0):
         class EmptyBag(list):
             pass
         return EmptyBag(), False
+    if kind == 37:
+        return "caf\udce9.txt", False     # lone LOW surrogate: what surrogateescape gives for undecodable bytes (file names, argv)
+    if kind == 38:
+        return {"k\udc80": "v\udcff"}, False
     raise ValueError(kind)
 
 
@@ -259,7 +263,7 @@ def total(kind: int, pos: int, ek: int, ntp: int, conv: int) -> str:
     SystemExit / GeneratorExit) at one of 5 positions, 1-3 snapshot tracepoints on the line (the last one with a watch):
     one snapshot per tracepoint is delivered and converts, every other variable is intact, the offending value has an
     entry with its real type name, each snapshot is complete and closed on its own.
-    PRE: 0 <= kind <= 36 and 0 <= pos <= 5 and 0 <= ek <= 5 and 1 <= ntp <= 3 and 0 <= conv <= 1
+    PRE: 0 <= kind <= 38 and 0 <= pos <= 5 and 0 <= ek <= 5 and 1 <= ntp <= 3 and 0 <= conv <= 1
     PRE: ek == 0 or kind in (16, 17, 18, 19, 20, 22)
     POST: _ == ""
     """
@@ -321,6 +325,103 @@ def total(kind: int, pos: int, ek: int, ntp: int, conv: int) -> str:
     return ""
 
 
+
+class _NoText:
+    """The result of a condition whose text form cannot be produced."""
+
+    def __str__(self):
+        raise RuntimeError("no text")
+
+    def __repr__(self):
+        raise RuntimeError("no repr")
+
+    def __bool__(self):
+        return True
+
+
+class _PushFailsFor:
+    """Recording push service that fails for ONE tracepoint's snapshot."""
+
+    def __init__(self, tp_id, exc):
+        self.snapshots, self.tp_id, self.exc = [], tp_id, exc
+
+    def push_snapshot(self, snapshot):
+        if snapshot.tracepoint.id == self.tp_id:
+            raise self.exc
+        self.snapshots.append(snapshot)
+
+
+N_SIBLING_FAULTS = 7
+
+
+def siblings(fk: int, fp: int, ntp: int, kind2: int) -> str:
+    """
+    2-3 tracepoints share a line; the one at position fp fails for a reason of its OWN (a log message applying a number
+    format to text, a malformed message, a condition whose value has no text form, an unusable limit in its
+    configuration, a push failure for its snapshot only, a metric action of its own failing): every OTHER tracepoint
+    on that line still delivers its complete snapshot, and nothing is raised into the application.
+    PRE: 0 <= fk <= 6 and 0 <= fp <= 2 and 2 <= ntp <= 3 and fp < ntp and 0 <= kind2 <= 1
+    POST: _ == ""
+    """
+    world.begin_path()
+    from deep.api.tracepoint.trigger import build_trigger
+    from deep.api.tracepoint.tracepoint_config import MetricDefinition
+    fk, fp, ntp, kind2 = [world.realize(x) for x in (fk, fp, ntp, kind2)]
+    f_locals = {"before": 1, "price": "12.5", "cond": _NoText(), "after": "z"}
+    push = None
+    if fk == 5:
+        push = _PushFailsFor("tp%d" % (fp + 1), RuntimeError("send failed"))
+    w = World(plugin_list=[plugins()["RecMetricProcessor"]([])], push=push)
+    trigs = []
+    for i in range(ntp):
+        args = {"fire_count": "-1", "fire_period": "0"}
+        metrics = []
+        if i == fp:
+            if fk == 0:
+                args["log_msg"] = "price={price:.2f}"
+            elif fk == 1:
+                args["log_msg"] = "{before"
+            elif fk == 2:
+                args["condition"] = "cond"
+            elif fk == 6:
+                metrics = [MetricDefinition("m", "COUNTER", None, None, None, "cond.nope.nope")]
+        elif kind2 == 1:
+            args["log_msg"] = "ok {before}"
+        t = build_trigger("tp%d" % (i + 1), "f.py", 7, args, ["after"] if i != fp else [], metrics)
+        if i == fp and fk in (3, 4):
+            for a in t.actions:
+                a.config["MAX_VARIABLES" if fk == 3 else "MAX_STRING_LENGTH"] = "abc"
+        trigs.append(t)
+    first = trigs[0]
+    for t in trigs[1:]:
+        first.merge_actions(t.actions)
+    w.install([first])
+    frame = FakeFrame("/app/f.py", "fn", 7, f_locals)
+    try:
+        w.event(frame, "line", None)
+    except BaseException as e:  # noqa
+        if world.is_engine_exc(e):
+            raise
+        world.reached()
+        return "C06:siblings:exception-escaped-the-handler:" + type(e).__name__
+    world.reached()
+    got = {}
+    for s in w.push.snapshots:
+        got.setdefault(s.tracepoint.id, []).append(s)
+    for i in range(ntp):
+        if i == fp:
+            continue
+        ss = got.get("tp%d" % (i + 1), [])
+        if len(ss) != 1:
+            return "C06:siblings:snapshot-of-a-healthy-tracepoint-%s" % ("lost" if not ss else "duplicated")
+        r = _check_one(ss[0], f_locals, True, "after")
+        if r:
+            return r.replace("C06:", "C06:siblings:")
+        if kind2 == 1 and ss[0].log_msg != "[deep] ok 1":
+            return "C06:siblings:log-message-of-a-healthy-tracepoint-altered"
+    return ""
+
+
 def _mut_dict_unguarded():
     import deep.processor.variable_processor as vp
 
@@ -373,14 +474,50 @@ def _mut_shared_table():
     fc.FrameCollector.collect = collect
 
 
-MUTANTS = {"shared_table": _mut_shared_table, "dict_unguarded": _mut_dict_unguarded, "str_unguarded": _mut_str_unguarded, "key_names_raw": _mut_key_names_raw}
+def _mut_no_action_guard():
+    """Re-introduce one try/except around the whole action loop (a failing action ends the loop)."""
+    import deep.processor.trigger_handler as th
+    orig = th.TriggerContext.action_context
+
+    def action_context(self, action):
+        ctx = orig(self, action)
+        if getattr(self, "_verif_failed", False):
+            ctx.can_trigger = lambda: False
+        real_process = ctx.process
+
+        def process():
+            try:
+                return real_process()
+            except BaseException:
+                self._verif_failed = True
+                raise
+        ctx.process = process
+        real_can = ctx.can_trigger
+
+        def can_trigger():
+            try:
+                return real_can()
+            except BaseException:
+                self._verif_failed = True
+                raise
+        if not getattr(self, "_verif_failed", False):
+            ctx.can_trigger = can_trigger
+        return ctx
+    th.TriggerContext.action_context = action_context
+
+
+MUTANTS = {"no_action_guard": _mut_no_action_guard, "shared_table": _mut_shared_table, "dict_unguarded": _mut_dict_unguarded, "str_unguarded": _mut_str_unguarded, "key_names_raw": _mut_key_names_raw}
 
 CONDITIONS = [
-    dict(fn="total", cubes={"quick": ["kind == %d and ntp == %d and conv == 1" % (k, 1 + (k % 3)) for k in range(37)] +
+    dict(fn="siblings", cubes=["fk == %d and ntp == %d" % (k, n) for k in range(N_SIBLING_FAULTS) for n in (2, 3)],
+         twins=["reach", "mutant:no_action_guard@fk == 0 and ntp == 2"],
+         bounds="2-3 tracepoints on one line, the one at any position failing for a reason of its own (7 kinds: number format applied to text, malformed message, "
+                "condition value without a text form, unusable MAX_VARIABLES / MAX_STRING_LENGTH, push failing for that snapshot, a failing metric expression)"),
+    dict(fn="total", cubes={"quick": ["kind == %d and ntp == %d and conv == 1" % (k, 1 + (k % 3)) for k in range(39)] +
                                      ["kind == %d and ntp == %d and conv == 1" % (k, n) for k in (0, 8, 16, 19) for n in (1, 2, 3)],
-                            "thorough": ["kind == %d and ntp == %d and conv == 1" % (k, n) for k in range(37) for n in (1, 2, 3)]},
+                            "thorough": ["kind == %d and ntp == %d and conv == 1" % (k, n) for k in range(39) for n in (1, 2, 3)]},
          twins=["reach", "mutant:dict_unguarded@kind == 0 and ntp == 1 and conv == 1", "mutant:str_unguarded@kind == 17 and ntp == 1 and conv == 1",
                 "mutant:key_names_raw@kind == 8 and ntp == 1 and conv == 1", "mutant:shared_table@kind == 0 and ntp == 2 and conv == 1"],
-         bounds="37 offending-value kinds x 6 positions (local, list element, dict value, object attribute, watch-only, the local named `self`) x 6 exception classes for the hostile kinds; "
+         bounds="39 offending-value kinds x 6 positions (local, list element, dict value, object attribute, watch-only, the local named `self`) x 6 exception classes for the hostile kinds; "
                 "1-3 tracepoints on the line, the last with a watch (quick: one tracepoint count per kind, all three for 4 kinds; thorough: all); real protobuf conversion + serialisation of every snapshot"),
 ]
